@@ -1,7 +1,7 @@
 (* C05 — automatic discovery never reports a signature the function cannot honour
    (the part that is logic: the walker's flags and what discovery builds from them). *)
-From Sigtools.Model Require Import Base Bind Algebra Visitor Discover.
-From Sigtools.Proofs Require Import SmallModel Basics Discover.
+From Sigtools.Model Require Import Base Bind Algebra Visitor Discover Exec.
+From Sigtools.Proofs Require Import SmallModel Basics Discover Exec.
 
 (* use_varargs / use_varkwargs is emitted only when the star argument of the
    call IS the wrapper's own star-parameter marker (object identity) *)
@@ -45,3 +45,33 @@ Theorem C05_decider_complete r inputs :
             forallb (fun s => accepts s c) inputs = true.
 Proof. exact (sound_cex_complete r inputs). Qed.
 Print Assumptions C05_decider_complete.
+
+(* ---- the walker against an execution semantics (Model/Exec.v) ----
+   For every wrapper  def w( *va, **vk ): <body>  whose body is a program of the
+   grammar [stmt] (forwarding calls, rebinding, augmented assignment, deletion,
+   item assignment, method calls on and hand-off of the star variables,
+   aliasing, unrelated calls, two-way branches; any length, any nesting): *)
+
+(* the walker's flags are exactly the abstract interpretation *)
+Theorem C05_walker_is_absint va vk l :
+  va <> vk -> block_ok va vk l = true ->
+  visitor_flags va vk l = Some (snd (absint_block l (true, true))).
+Proof. exact (visitor_flags_absint va vk l). Qed.
+Print Assumptions C05_walker_is_absint.
+
+(* on every execution path, at every call executed: a star argument marked as
+   used is, when the callee receives it, the caller's untouched object; a star
+   argument written in the call is marked used or hidden *)
+Theorem C05_flag_sound va vk l fls :
+  va <> vk -> block_ok va vk l = true ->
+  visitor_flags va vk l = Some fls ->
+  forall fuel st' evs e,
+    In (st', evs) (exec_block fuel l 0 (mkSem true true)) -> In e evs ->
+    (ev_site e < length fls)%nat /\ flag_sound (nth (ev_site e) fls dflags) e.
+Proof. exact (flags_sound va vk l fls). Qed.
+Print Assumptions C05_flag_sound.
+
+(* the quantification over executions is not empty *)
+Theorem C05_exec_total l st : exec_block (depth_block l) l 0 st <> [].
+Proof. exact (exec_total l st). Qed.
+Print Assumptions C05_exec_total.
